@@ -113,7 +113,7 @@ pub fn round_trip(asm: &Asm, rep: &mut Report) -> Option<(String, String)> {
 }
 
 pub fn run(ctx: &Ctx) -> Report {
-    let n = ctx.size(40_000, 2_000_000) as usize;
+    let n = ctx.size(400_000, 8_000_000) as usize;
     let batches = (n + 199) / 200;
     par_items(ctx.threads, batches, ctx.seed, move |i, seed, rep| {
         let mut rng = Rng::new(seed);
